@@ -1,9 +1,9 @@
 package rules
 
 import (
-	"go/types"
 	"fmt"
 	"go/token"
+	"go/types"
 	"strings"
 
 	"golang.org/x/tools/go/ssa"
@@ -305,7 +305,7 @@ func scalarUnit(c *core.Ctx, conv *ssa.Function) *ssa.Function {
 			continue
 		}
 		a := call.Common().Args
-		if core.Canon(a[0]) == ssa.Value(conv.Params[0]) && (core.Canon(a[1]) == ssa.Value(conv.Params[1]) ) {
+		if core.Canon(a[0]) == ssa.Value(conv.Params[0]) && (core.Canon(a[1]) == ssa.Value(conv.Params[1])) {
 			return g
 		}
 	}
@@ -340,6 +340,7 @@ func ruleKindGuards(c *core.Ctx, outer *ssa.Function) {
 			k := k
 			ms = append(ms, core.Eq(isWKind, func(v ssa.Value) bool { x, ok := core.ConstInt(v); return ok && x == k }))
 		}
+		ms = append(ms, classifiedAs(isWKind, ks...))
 		return core.AnyOf(ms...)
 	}
 	asInt := c.Func("type/conversion", "", "AsInt64")
@@ -443,6 +444,8 @@ func ruleKindGuards(c *core.Ctx, outer *ssa.Function) {
 			k := k
 			ms = append(ms, core.Eq(isAK, func(v ssa.Value) bool { x, ok := core.ConstInt(v); return ok && x == k }))
 		}
+		// or a constant classification table of kinds: kinds[w.Kind()] == class
+		ms = append(ms, classifiedAs(isAK, ks...))
 		return core.AnyOf(ms...)
 	}
 	bad := ""
@@ -546,6 +549,11 @@ func ruleElementwise(c *core.Ctx, conv *ssa.Function) {
 			}
 			if core.Guarded(st, call.(ssa.Instruction), core.Eq(isName, isName)) {
 				bad = ""
+			} else if searchHelperIndex(c, st, call.(ssa.Instruction), fb.Call.Args[1], func(h *ssa.Function, v ssa.Value, arg func(ssa.Value) ssa.Value) core.EdgeMatcher {
+				isN := func(x ssa.Value) bool { return isName(x) || isName(arg(x)) }
+				return core.Eq(isN, isN)
+			}) {
+				bad = "" // source index found by a search helper that compares the names
 			} else if nameIndexed(st, call.(ssa.Instruction), fb, isLower) {
 				bad = "" // source index looked up by folded name in an index built from the source's field names
 			} else {
